@@ -1,0 +1,14 @@
+//go:build verif
+
+// Contracts for package sortref (comment-only; see /verif/DESIGN.md).
+
+package sortref
+
+// DepthFirst iterates its map argument by reflection (mustMapIterator); it reads only and returns a new slice.
+//@ func DepthFirst(in)
+//@   assumed
+//@   modifies nothing
+
+//@ func TopmostFirst(refs)
+//@   assumed
+//@   modifies nothing
